@@ -1,109 +1,142 @@
-(* C11 — Compiled GSUB/GPOS behave as the feature file says.  Property theorems; proofs are in
-   Proofs*.v.  `interp_fea` (Interp.v) is the source semantics, `apply_ot` (OT.v) the OpenType
-   lookup application algorithm, `compile_mini` (Compile.v) the model of fea-rs's compilation of an
-   elaborated feature file (`elab`, Source.v).  All statements are for every glyph string, every
-   lookup flag, every GDEF class assignment, every selection of script / language / features. *)
+(* C11 — Compiled GSUB/GPOS behave as the feature file says.  Property theorems; every proof is `exact` of a
+   lemma of Proofs*.v.
+     interp_fea (Interp.v)   source semantics of an elaborated feature file (elab, Source.v)
+     apply_ot (OT.v)         the OpenType lookup application algorithm
+     compile_mini_g isng imul ilig (Compile.v)   model of fea-rs's compilation, parametrised by the three
+                             inline-rule repairs of 2026-09 (single, multiple, ligature)
+   WHICH BUILD a theorem is about is part of its name:
+     compile_repo  = compile_mini_g true true false   THE COMPILER IN /repo: the inline single and inline
+                     multiple repairs are applied, the inline ligature repair is not (known finding
+                     contextual-inline-ligature-shared-lookup);
+     compile_mini  = compile_mini_g true true true    /repo plus the inline ligature repair — theorems
+                     named with_ligature_repair_* hold only if that repair is applied;
+     compile_mini_unrepaired = compile_mini_g false false false   the compiler before the repairs —
+                     theorems named unrepaired_* (what a regression would bring back).
+   Theorems with `any_build` / an explicit flag quantifier hold for every combination.
+   All statements are for every glyph string, lookup flag, GDEF class assignment and selection of
+   script / language / features. *)
 From Coq Require Import List NArith ZArith Bool Arith.
 From FV.C11 Require Import Model Wf Proofs.
 Import ListNotations.
 
-(* ---- 1. the compiler-correctness theorem -------------------------------------------------------- *)
-(* Full statement of the property for the model. *)
+(* ---- 1. the compiler-correctness theorem, for the compiler in /repo --------------------------------------- *)
+(* Full statement of the property for the model of /repo. *)
 Definition C11_full : Prop :=
   forall (e : eprog) (sel : selection) (s : list glyph),
-    wf_eprog e = true -> apply_ot (compile_mini e) sel s = interp_fea e sel s.
+    wf_eprog_full e = true -> apply_ot (compile_repo e) sel s = interp_fea e sel s.
 
-(* PARTIAL: proved for every elaborated feature file WITHOUT INLINE contextual rules: single, multiple,
-   alternate, ligature substitution; chaining contextual substitution whose rules call NAMED lookups
-   (themselves possibly contextual, any nesting, nested lookups changing the length of the run) and
-   `ignore` rules; single and pair positioning; any lookup flags, GDEF classes, feature / script /
-   language registration: shaping with the compiled tables = interpreting the source rules.
-   Missing for the full statement: contextual rules with an inline replacement (`sub a' b by c;`).
-   For these the statement was FALSE before the repairs of 2026-09 (theorem 2); for the repaired
-   compiler it is open: not proved, no counterexample known (the former counterexamples now satisfy
-   it, and the correspondence run evaluates it on every generated file). *)
-Theorem compile_preserves_noinline_partial : forall (e : eprog) (sel : selection) (s : list glyph),
-  wf_eprog e = true -> no_inline e = true ->
-  apply_ot (compile_mini e) sel s = interp_fea e sel s.
-Proof. exact (compile_preserves_noinline true true true). Qed.
-Print Assumptions compile_preserves_noinline_partial.
+(* PARTIAL: proved for every elaborated feature file whose INLINE contextual rules are inline single and
+   inline multiple substitutions (incl. `by NULL`): single, multiple, alternate, ligature substitution;
+   chaining contextual substitution with named nested lookups (themselves contextual, any nesting, nested
+   lookups changing the length of the run), inline single / multiple rules sharing anonymous lookups that
+   follow their parent in the lookup list, `ignore` rules; single and pair positioning; any lookup flags,
+   GDEF classes, feature / script / language registration.
+   Hypotheses: wf_eprog_full — no two rules of one non-contextual lookup give one glyph (sequence, class
+   pair) different results (conflicting-rules-later-wins keys, known findings);
+   full_ok — (a) no inline LIGATURE rule: for these C11_full is FALSE for compile_repo (theorem 2, the known
+   finding); (b) an inline rule's target is its first input class with one replacement per glyph and does
+   not itself give one glyph two results; (c) contextual rules name earlier lookups only.  (b) and (c) hold
+   of everything `elab` produces from a file fea-rs accepts; that is exercised by the correspondence run,
+   not proved about `elab`.
+   Missing for C11_full: exactly (a), where the statement fails, and a proof of (b), (c) for `elab`. *)
+Theorem compile_repo_preserves_partial : forall (e : eprog) (sel : selection) (s : list glyph),
+  wf_eprog_full e = true -> full_ok e = true ->
+  apply_ot (compile_repo e) sel s = interp_fea e sel s.
+Proof. exact compile_repo_preserves. Qed.
+Print Assumptions compile_repo_preserves_partial.
 
 (* the same from the feature-file AST: whenever the walk accepts the file *)
-Theorem compile_prog_preserves_noinline_partial : forall incl gm (p : prog) (e : eprog) sel s,
-  elab incl gm p = Some e -> wf_eprog e = true -> no_inline e = true ->
-  compile_prog incl gm p = Some (compile_mini e)
-  /\ interp_prog incl gm p sel s = Some (apply_ot (compile_mini e) sel s).
-Proof.
-  intros incl gm p e sel s E W N. unfold compile_prog, interp_prog. rewrite E. simpl.
-  split; [reflexivity|]. unfold compile_mini. rewrite (compile_preserves_noinline true true true e sel s W N). reflexivity.
-Qed.
-Print Assumptions compile_prog_preserves_noinline_partial.
+Theorem compile_prog_repo_preserves_partial : forall incl gm (p : prog) (e : eprog) sel s,
+  elab incl gm p = Some e -> wf_eprog_full e = true -> full_ok e = true ->
+  compile_prog incl gm p = Some (compile_repo e)
+  /\ interp_prog incl gm p sel s = Some (apply_ot (compile_repo e) sel s).
+Proof. exact compile_prog_repo_preserves. Qed.
+Print Assumptions compile_prog_repo_preserves_partial.
 
-(* the instance without any contextual lookup *)
-Theorem compile_preserves_nochain_partial : forall (e : eprog) (sel : selection) (s : list glyph),
-  wf_eprog e = true -> no_chain e = true ->
-  apply_ot (compile_mini e) sel s = interp_fea e sel s.
-Proof. exact (compile_preserves_nochain true true true). Qed.
-Print Assumptions compile_preserves_nochain_partial.
+(* the proof does not depend on the inline ligature repair: the theorem holds with and without it *)
+Theorem compile_preserves_inline_any_ligature_build_partial : forall ilig e sel s,
+  wf_eprog_full e = true -> full_ok e = true ->
+  apply_ot (compile_mini_g true true ilig e) sel s = interp_fea e sel s.
+Proof. exact compile_preserves_inline_sm. Qed.
+Print Assumptions compile_preserves_inline_any_ligature_build_partial.
 
-Example compile_preserves_nonvacuous :
-  wf_eprog w_good = true /\ no_chain w_good = true
-  /\ interp_fea w_good w_sel [0; 4; 1; 2]%N = [(1, mkV 0 0 5 0); (4, vzero); (3, vzero)]%N.
-Proof. exact w_good_facts. Qed.
-
-(* ... and one with contextual rules: named nested lookups (one contextual itself), two lookups at one
-   position, a nested ligature that shortens the run, an `ignore` rule *)
-Example compile_preserves_contextual_nonvacuous :
-  wf_eprog w_ctx = true /\ no_inline w_ctx = true /\ no_chain w_ctx = false
-  /\ interp_fea w_ctx w_sel [4; 0; 2; 3; 0; 2]%N
-     = [(4, vzero); (3, vzero); (3, vzero); (0, vzero); (2, vzero)]%N.
-Proof. exact w_ctx_facts. Qed.
-
-(* without inline rules the three repairs of the inline-rule bookkeeping are immaterial: the theorem holds
-   for every combination of them, in particular for the compiler as it was before *)
+(* without inline rules none of the three repairs matters: the theorem holds for every build, in particular
+   for the compiler as it was before the repairs *)
 Theorem compile_preserves_noinline_any_build_partial : forall isng imul ilig e sel s,
   wf_eprog e = true -> no_inline e = true ->
   apply_ot (compile_mini_g isng imul ilig e) sel s = interp_fea e sel s.
 Proof. exact compile_preserves_noinline. Qed.
 Print Assumptions compile_preserves_noinline_any_build_partial.
 
-(* ---- 2. inline contextual rules: before and after the repairs ------------------------------------------- *)
-(* BEFORE (compile_mini_unrepaired; what a regression would bring back, each replayed on the real
-   compiler by the correspondence run under the key named):
-   (a) `sub c' x by x; sub [x c]' c by b;` — the second rule's class target was checked against the
-       shared anonymous lookup on its first glyph only and then overwrote the first rule's entry
-       (contextual-inline-single-overwrites-shared-lookup);
-   (b) `sub a' x by b c; sub [a d]' b by c b;` — the glyphs of a class target were spread over two
-       anonymous lookups, the rule kept the last (contextual-inline-multiple-wrong-shared-lookup);
-   (c) `sub a' b' by x; sub a' b' c' by d;` — both ligatures in one anonymous lookup, the longer one
-       formed where the first rule matched (contextual-inline-ligature-shared-lookup). *)
+(* the hypotheses are satisfiable by files that do something: the two former counterexamples with inline
+   rules, a file with nested named lookups and an `ignore` rule, a file with flags, ligatures and kerning *)
+Example compile_repo_preserves_nonvacuous :
+  (wf_eprog_full w_inline = true /\ full_ok w_inline = true)
+  /\ (wf_eprog_full w_imulti = true /\ full_ok w_imulti = true)
+  /\ (wf_eprog_full w_ctx = true /\ full_ok w_ctx = true)
+  /\ (wf_eprog_full w_good = true /\ full_ok w_good = true)
+  /\ interp_fea w_inline w_sel [2; 4; 4; 2]%N = [(4, vzero); (4, vzero); (1, vzero); (2, vzero)]%N.
+Proof. exact w_full_ok_facts. Qed.
+
+Example compile_preserves_contextual_nonvacuous :
+  wf_eprog w_ctx = true /\ no_inline w_ctx = true /\ no_chain w_ctx = false
+  /\ interp_fea w_ctx w_sel [4; 0; 2; 3; 0; 2]%N
+     = [(4, vzero); (3, vzero); (3, vzero); (0, vzero); (2, vzero)]%N.
+Proof. exact w_ctx_facts. Qed.
+
+(* ---- 2. where the statement fails, per build ----------------------------------------------------------------- *)
+(* THE COMPILER IN /repo (known finding contextual-inline-ligature-shared-lookup):
+   `sub a' b' by x; sub a' b' c' by d;` — both ligatures share one anonymous lookup, and where the first
+   rule matches "a b c" the longer ligature is formed.  On the two former counterexamples with inline single
+   and inline multiple rules compile_repo agrees with the source on every string up to length 4. *)
+Theorem repo_inline_ligature_refuted_and_others_agree :
+  agree_repo_upto w_inline 4 = true /\ agree_repo_upto w_imulti 4 = true
+  /\ apply_ot (compile_repo w_iliga) w_sel [0; 1; 2]%N <> interp_fea w_iliga w_sel [0; 1; 2]%N.
+Proof. exact w_repo_facts. Qed.
+Print Assumptions repo_inline_ligature_refuted_and_others_agree.
+
+(* EVERY BUILD: the hypothesis on conflicting rules is needed — fea-rs accepts two rules of one lookup that
+   give the same glyph different results and lets the LATER one win, where the specification reads "first
+   matching rule" (keys conflicting-rules-later-wins:KIND, known findings). *)
+Theorem repo_later_rule_wins_refuted :
+  no_chain w_conflict = true /\ wf_eprog w_conflict = false
+  /\ apply_ot (compile_repo w_conflict) w_sel [0%N] <> interp_fea w_conflict w_sel [0%N].
+Proof. exact w_conflict_facts. Qed.
+Print Assumptions repo_later_rule_wins_refuted.
+
+(* BEFORE THE REPAIRS (compile_mini_unrepaired; each replayed on the real compiler by the correspondence
+   run under the key named, should it come back):
+   (a) `sub c' x by x; sub [x c]' c by b;`   contextual-inline-single-overwrites-shared-lookup
+   (b) `sub a' x by b c; sub [a d]' b by c b;`   contextual-inline-multiple-wrong-shared-lookup
+   (c) `sub a' b' by x; sub a' b' c' by d;`   contextual-inline-ligature-shared-lookup *)
 Theorem unrepaired_inline_single_refuted :
-  exists e sel s, wf_eprog e = true /\ apply_ot (compile_mini_unrepaired e) sel s <> interp_fea e sel s.
-Proof. exists w_inline, w_sel, [2; 4]%N. exact w_inline_facts. Qed.
+  wf_eprog w_inline = true
+  /\ apply_ot (compile_mini_unrepaired w_inline) w_sel [2; 4]%N <> interp_fea w_inline w_sel [2; 4]%N.
+Proof. exact w_inline_facts. Qed.
 Print Assumptions unrepaired_inline_single_refuted.
 
 Theorem unrepaired_inline_multiple_refuted :
-  exists e sel s, apply_ot (compile_mini_unrepaired e) sel s <> interp_fea e sel s.
-Proof. exists w_imulti, w_sel, [0; 1]%N. exact w_imulti_facts. Qed.
+  apply_ot (compile_mini_unrepaired w_imulti) w_sel [0; 1]%N <> interp_fea w_imulti w_sel [0; 1]%N.
+Proof. exact w_imulti_facts. Qed.
 Print Assumptions unrepaired_inline_multiple_refuted.
 
 Theorem unrepaired_inline_ligature_refuted :
-  exists e sel s, apply_ot (compile_mini_unrepaired e) sel s <> interp_fea e sel s.
-Proof. exists w_iliga, w_sel, [0; 1; 2]%N. exact w_iliga_facts. Qed.
+  apply_ot (compile_mini_unrepaired w_iliga) w_sel [0; 1; 2]%N <> interp_fea w_iliga w_sel [0; 1; 2]%N.
+Proof. exact w_iliga_facts. Qed.
 Print Assumptions unrepaired_inline_ligature_refuted.
 
-(* AFTER: the same three files shape as they say, on every glyph string up to length 4 over their
-   five glyphs (a finite sweep, bound in the statement; the general statement is C11_full, open) *)
-Theorem repaired_inline_witnesses_agree :
+(* ---- 3. conditional: holds IF THE INLINE-LIGATURE REPAIR IS APPLIED (compile_mini, not /repo) ------------- *)
+(* with it the three former counterexamples, (c) included, shape as they say on every string up to length 4 *)
+Theorem with_ligature_repair_witnesses_agree :
   agree_upto w_inline 4 = true /\ agree_upto w_imulti 4 = true /\ agree_upto w_iliga 4 = true.
 Proof. exact w_inline_repaired. Qed.
-Print Assumptions repaired_inline_witnesses_agree.
+Print Assumptions with_ligature_repair_witnesses_agree.
 
-(* AFTER, for every contextual lookup (any rules before and after, named lookups, other inline rules):
-   the rule compiled from an inline SINGLE substitution calls at input position 0 an anonymous lookup
-   (index root + 1 + i) that maps each target glyph of that rule as the rule says.  `inline_ok`: the
-   rule does not itself give one glyph two results.  This is the general positive form of (a). *)
-Theorem inline_single_rule_lookup_sound : forall root idx rules1 back input look tgt repl n rules2 crs anons,
+(* for every contextual lookup compiled WITH the ligature repair (any rules before and after, inline
+   ligature rules among them): the rule compiled from an inline single substitution calls at input position 0
+   an anonymous lookup that maps each target glyph of that rule as the rule says *)
+Theorem with_ligature_repair_inline_single_rule_lookup_sound :
+  forall root idx rules1 back input look tgt repl n rules2 crs anons,
   forallb inline_ok (rules1 ++ XChain back input look (Some (XISingle tgt repl n)) :: rules2) = true ->
   compile_chain_g true true true root idx
     (rules1 ++ XChain back input look (Some (XISingle tgt repl n)) :: rules2) = (crs, anons) ->
@@ -114,10 +147,10 @@ Theorem inline_single_rule_lookup_sound : forall root idx rules1 back input look
     /\ nth_error anons i = Some (AnSingle m)
     /\ forall g v, assoc g (combine tgt repl) = Some v -> assoc g m = Some v.
 Proof. exact inline_single_rule_lookup. Qed.
-Print Assumptions inline_single_rule_lookup_sound.
+Print Assumptions with_ligature_repair_inline_single_rule_lookup_sound.
 
-(* ... and of (b), for an inline MULTIPLE substitution (incl. `by NULL`) *)
-Theorem inline_multiple_rule_lookup_sound : forall root idx rules1 back input look tgt seqs rules2 crs anons,
+Theorem with_ligature_repair_inline_multiple_rule_lookup_sound :
+  forall root idx rules1 back input look tgt seqs rules2 crs anons,
   combine tgt seqs <> [] ->
   forallb inline_ok (rules1 ++ XChain back input look (Some (XIMulti tgt seqs)) :: rules2) = true ->
   compile_chain_g true true true root idx
@@ -129,12 +162,13 @@ Theorem inline_multiple_rule_lookup_sound : forall root idx rules1 back input lo
     /\ nth_error anons i = Some (AnMulti m)
     /\ forall g v, assoc g (combine tgt seqs) = Some v -> assoc g m = Some v.
 Proof. exact inline_multiple_rule_lookup. Qed.
-Print Assumptions inline_multiple_rule_lookup_sound.
+Print Assumptions with_ligature_repair_inline_multiple_rule_lookup_sound.
 
-(* ... and of (c), for an inline LIGATURE substitution: the rule calls an anonymous ligature lookup whose
-   table is well formed (one ligature per sequence, no sequence extends another) and holds every component
-   sequence of the rule with the rule's ligature ... *)
-Theorem inline_ligature_rule_lookup_sound : forall root idx rules1 back input look comps lig rules2 crs anons,
+(* ... and the rule compiled from an inline LIGATURE substitution calls an anonymous ligature lookup whose table
+   is well formed (one ligature per sequence, no sequence extends another) and holds every component sequence
+   of the rule with the rule's ligature ... *)
+Theorem with_ligature_repair_inline_ligature_rule_lookup_sound :
+  forall root idx rules1 back input look comps lig rules2 crs anons,
   sequences comps <> [] ->
   compile_chain_g true true true root idx
     (rules1 ++ XChain back input look (Some (XILiga comps lig)) :: rules2) = (crs, anons) ->
@@ -145,33 +179,25 @@ Theorem inline_ligature_rule_lookup_sound : forall root idx rules1 back input lo
     /\ nth_error anons i = Some (AnLiga t) /\ tbl_ok t
     /\ forall first rest, In (first :: rest) (sequences comps) -> In (rest, lig) (row first t).
 Proof. exact inline_ligature_rule_lookup. Qed.
-Print Assumptions inline_ligature_rule_lookup_sound.
+Print Assumptions with_ligature_repair_inline_ligature_rule_lookup_sound.
 
-(* ... so that, applied where components of the rule match (any lookup flag, glyphs skipped in between), it
-   forms exactly the rule's ligature, whatever other ligatures share the lookup *)
-Theorem inline_ligature_lookup_forms_rule_ligature : forall gd alt rec fl t cur r lig before after c rest,
+(* ... so that (a fact about any well-formed ligature table, the repair is what establishes well-formedness)
+   applied where components of the rule match — any lookup flag, glyphs skipped in between — it forms exactly
+   the rule's ligature, whatever other ligatures share the lookup *)
+Theorem wellformed_ligature_lookup_forms_rule_ligature : forall gd alt rec fl t cur r lig before after c rest,
   tbl_ok t -> In (r, lig) (row cur t) ->
   match_seq gd fl (map (fun g => [g]) r) after = Some (c, rest) ->
   try_gsub_subs gd alt rec fl (lk_subs (anon_lookup fl (AnLiga t))) before cur after
   = Some ([lig], skipped_of c ++ rest).
 Proof. exact liga_lookup_forms_rule_ligature. Qed.
-Print Assumptions inline_ligature_lookup_forms_rule_ligature.
+Print Assumptions wellformed_ligature_lookup_forms_rule_ligature.
 
 Example inline_rule_lookup_nonvacuous :
   forallb inline_ok (concat (map sl_rules (e_gsub w_inline))) = true
   /\ forallb inline_ok (concat (map sl_rules (e_gsub w_imulti))) = true.
-Proof. split; reflexivity. Qed.
+Proof. exact inline_ok_witnesses. Qed.
 
-(* The hypothesis wf_eprog is needed: fea-rs accepts two rules of one lookup that give the same glyph
-   different results and lets the LATER one win, where the specification reads "first matching
-   rule" (keys conflicting-rules-later-wins:KIND). *)
-Theorem later_rule_wins_refuted :
-  exists e sel s, no_chain e = true /\ wf_eprog e = false
-                  /\ apply_ot (compile_mini e) sel s <> interp_fea e sel s.
-Proof. exists w_conflict, w_sel, [0%N]. exact w_conflict_facts. Qed.
-Print Assumptions later_rule_wins_refuted.
-
-(* ---- 3. the lookup kinds one by one (used by 1; each for every rule list) ------------------------------ *)
+(* ---- 4. the lookup kinds one by one (every build; used by 1; each for every rule list) --------------------- *)
 (* single substitution: the compiled glyph map answers like the first rule naming the glyph *)
 Theorem single_lookup_first_match : forall rules g,
   consistent N.eqb N.eqb (flat_map single_bindings rules) = true ->
@@ -192,18 +218,17 @@ Theorem alternate_lookup_first_match : forall rules g,
 Proof. exact alt_refines. Qed.
 Print Assumptions alternate_lookup_first_match.
 
-(* ligature substitution: class sequences enumerated, grouped by first glyph, duplicates dropped,
-   stably sorted longest first, first match wins  =  among the rules that match at the position
-   (components matched by class membership, glyphs skipped per lookup flag) the one with the most
-   components, the first declared among those.  Only the single substitutions promoted into the
-   lookup must not contradict each other. *)
+(* ligature substitution: class sequences enumerated, grouped by first glyph, duplicates dropped, stably sorted
+   longest first, first match wins  =  among the rules that match at the position (components matched by class
+   membership, glyphs skipped per lookup flag) the one with the most components, the first declared among those.
+   Only the single substitutions promoted into the lookup must not contradict each other. *)
 Theorem ligature_lookup_longest_first : forall gd fl cur after rules,
   consistent N.eqb N.eqb (flat_map single_bindings (fst (single_prefix rules))) = true ->
   match assoc cur (compile_liga rules) with
   | Some ligs => try_liga gd fl ligs after
   | None => None
   end = pick_liga gd fl cur after rules None.
-Proof. intros. apply liga_refines. assumption. Qed.
+Proof. exact liga_refines. Qed.
 Print Assumptions ligature_lookup_longest_first.
 
 Theorem single_pos_first_match : forall rules g,
@@ -212,9 +237,9 @@ Theorem single_pos_first_match : forall rules g,
 Proof. exact possingle_refines. Qed.
 Print Assumptions single_pos_first_match.
 
-(* pair positioning: the format-1 subtable of specific pairs followed by the class subtables behaves
-   like: first specific-pair rule (incl. `enum`) for the two glyphs; else the first class subtable
-   whose first classes hold the first glyph decides (its first matching rule, or no adjustment) *)
+(* pair positioning: the format-1 subtable of specific pairs followed by the class subtables behaves like: first
+   specific-pair rule (incl. `enum`) for the two glyphs; else the first class subtable whose first classes hold
+   the first glyph decides (its first matching rule, or no adjustment) *)
 Theorem pair_pos_subtables : forall gd fl rules cur after,
   pair_consistent rules ->
   try_gpos_subs gd fl (compile_pair rules) cur after
@@ -238,10 +263,9 @@ Theorem pair_first_match_when_compatible : forall gd fl rules cur after sk g2 w 
 Proof. exact pair_first_match. Qed.
 Print Assumptions pair_first_match_when_compatible.
 
-(* ... and not otherwise: `pos [a b] [c d] 10; pos [a x] [b] 20;` — the pair (a, b) matches the second
-   rule, but that rule sits in a second subtable and the first one covers `a`: no adjustment.  This is
-   the subtable behaviour the feature file specification describes for class kerning; the source
-   semantics above includes it. *)
+(* ... and not otherwise: `pos [a b] [c d] 10; pos [a x] [b] 20;` — the pair (a, b) matches the second rule, but
+   that rule sits in a second subtable and the first one covers `a`: no adjustment.  This is the subtable
+   behaviour the feature file specification describes for class kerning; the source semantics includes it. *)
 Theorem class_pair_shadowing_example :
   pair_compatible w_shadow_rules = false
   /\ first_some (pairc_of 0%N 1%N) w_shadow_rules = Some (mkV 0 0 20 0)
@@ -249,21 +273,16 @@ Theorem class_pair_shadowing_example :
 Proof. exact w_shadow_facts. Qed.
 Print Assumptions class_pair_shadowing_example.
 
-(* ---- 4. class and range expansion ------------------------------------------------------------------------ *)
+(* ---- 5. class and range expansion ------------------------------------------------------------------------------ *)
 (* glyph_range.rs before the repair: a numeric range stopped one glyph short of its end
    (key glyph-range-numeric-excludes-end) *)
 Theorem unrepaired_numeric_range_excludes_end_refuted :
   exists a b l, range_named a b = Some l /\ ~ In b l /\ exists l', range_named_spec a b = Some l' /\ In b l'.
-Proof.
-  exists [103; 48; 49]%N, [103; 48; 52]%N, [[103; 48; 49]; [103; 48; 50]; [103; 48; 51]]%N.
-  destruct w_range_facts as [R1 R2]. split; [exact R1|]. split.
-  - intros [H|[H|[H|[]]]]; discriminate.
-  - eexists. split; [exact R2|]. simpl. auto.
-Qed.
+Proof. exact unrepaired_range_witness. Qed.
 Print Assumptions unrepaired_numeric_range_excludes_end_refuted.
 
-(* after it (the reading `resolve_items true` uses): whenever a range is accepted its end glyph is a
-   member.  (That this function is the repaired code's expansion is tied by the range cases of every run.) *)
-Theorem numeric_range_includes_end : forall a b l, range_named_spec a b = Some l -> In b l.
+(* in /repo (the reading `resolve_items true` uses): whenever a range is accepted its end glyph is a member.
+   (That this function is the repaired code's expansion is tied by the range cases of every run.) *)
+Theorem repo_numeric_range_includes_end : forall a b l, range_named_spec a b = Some l -> In b l.
 Proof. exact range_spec_end. Qed.
-Print Assumptions numeric_range_includes_end.
+Print Assumptions repo_numeric_range_includes_end.
